@@ -226,6 +226,10 @@ fn c11_batches(tier: &str) -> Vec<Batch> {
 fn c12_batches(tier: &str) -> Vec<Batch> {
     let mut p = c11_profile();
     p.name = "c12".into();
+    // restarts, also while an installed update waits for its reboot: the first wait of a lifetime is a wait like any other
+    p.max_lifetimes = 2;
+    p.crash_permille = 250;
+    p.crash_horizon = 300;
     p.net.retry_after = 150;
     p.policy.min_wait_permille = 600;
     p.lateness = [3, 3, 2, 2];
@@ -271,6 +275,7 @@ fn exec_c14_diff(p: &Profile, cfg: &RunCfg) -> (RunOut, MonOut) {
 
 pub fn c14_profile() -> Profile {
     let mut p = Profile::base("c14-hostile");
+    p.policy.huge_min_wait_permille = 60;
     p.srv.dup_app_permille = 100;
     p.mode = Mode::Either;
     p.max_checks = 3;
@@ -868,6 +873,10 @@ fn c03_batches(tier: &str) -> Vec<Batch> {
     p.name = "c03".into();
     p.url_variants = true;
     p.net.none = 800;
+    // restarts: a handler is created per lifetime, nonces stay fresh across them
+    p.max_lifetimes = 3;
+    p.crash_permille = 300;
+    p.crash_horizon = 150;
     vec![Batch { name: "c03-main".into(), profile: p, runs: scale(tier, 12_000, 300_000), exec: exec_c03, strata: None }]
 }
 fn c06_strata(i: u64) -> Vec<(String, u64)> {
